@@ -63,12 +63,13 @@ static void run(const Script& s) {
         std::vector<std::string> t = split(line);
         if (t.empty()) continue;
         try {
-            if (t[0] == "cfg" && (t.size() == 5 || t.size() == 6)) {
+            if (t[0] == "cfg" && t.size() >= 5 && t.size() <= 7) {
                 // optional 6th token: every new stream gets enable_ack_tracking() (ACK / SACK bookkeeping; only its termination reason is observable here)
-                g_acktrack = t.size() == 6 && num(t[5]) != 0;
+                g_acktrack = t.size() >= 6 && num(t[5]) != 0;
                 fo.reset(new StreamFollower());
                 fo->new_stream_callback(on_new);
-                fo->stream_termination_callback(on_term);
+                // optional 7th token: the user registers NO termination callback (over-limit and idle connections are dropped all the same)
+                if (!(t.size() == 7 && num(t[6]) != 0)) fo->stream_termination_callback(on_term);
                 fo->follow_partial_streams(num(t[1]) != 0);
                 // -1: keep what the constructor set (the shipped defaults)
                 if (t[2] != "-1") fo->stream_keep_alive(std::chrono::microseconds(snum(t[2])));
